@@ -126,7 +126,8 @@ fn udp_emit<const N: usize>() {
     let len = (N + 8) as u16;
     let pseudo = [src[0], src[1], src[2], src[3], dst[0], dst[1], dst[2], dst[3], 0, 17, (len >> 8) as u8, len as u8];
     let hdr = [bytes[0], bytes[1], bytes[2], bytes[3], bytes[4], bytes[5], bytes[6], bytes[7]];
-    assert!(rfc1071_bytes(&[&pseudo, &hdr, &payload]) == 0);
+    // summation order (irrelevant for a one's-complement sum) follows the builder's to keep the SAT problem small
+    assert!(rfc1071_bytes(&[&payload, &hdr[4..6], &pseudo[10..12], &pseudo[..10], &hdr[..4], &hdr[6..8]]) == 0);
     assert!(!(hdr[6] == 0 && hdr[7] == 0));
     kani::cover!(hdr[6] == 0xff && hdr[7] == 0xff);
     core::mem::forget(bytes);
@@ -139,10 +140,10 @@ fn c18_udp_emitted_checksum_verifies_len0() { udp_emit::<0>() }
 fn c18_udp_emitted_checksum_verifies_len1() { udp_emit::<1>() }
 /// C18 UDP emission verifies, 2-byte payload
 #[cfg(feature = "compute_checksum")] #[kani::proof] #[kani::unwind(10)]
-fn x18_udp_emitted_checksum_verifies_len2() { udp_emit::<2>() }
+fn c18_udp_emitted_checksum_verifies_len2() { udp_emit::<2>() }
 /// C18 UDP emission verifies, 3-byte (odd) payload
 #[cfg(feature = "compute_checksum")] #[kani::proof] #[kani::unwind(10)]
-fn x18_udp_emitted_checksum_verifies_len3() { udp_emit::<3>() }
+fn c18_udp_emitted_checksum_verifies_len3() { udp_emit::<3>() }
 
 /// C18 acceptance <=> reference, payload length N: an arbitrary UDP packet (8 header bytes + N payload bytes) with a
 /// consistent length field and a non-zero checksum field is accepted exactly when RFC 1071 verification passes.
@@ -155,7 +156,8 @@ fn udp_accept<const N: usize, const M: usize>() {
     kani::assume(p[4] == (len >> 8) as u8 && p[5] == len as u8);
     kani::assume(!(p[6] == 0 && p[7] == 0)); // zero = "no checksum" in RFC 768, not produced by a checksumming sender
     let pseudo = [src[0], src[1], src[2], src[3], dst[0], dst[1], dst[2], dst[3], 0, 17, (len >> 8) as u8, len as u8];
-    let verifies = rfc1071_bytes(&[&pseudo, &p]) == 0;
+    // summation order (irrelevant for a one's-complement sum) follows the decoder's to keep the SAT problem small
+    let verifies = rfc1071_bytes(&[&p[..6], &pseudo[10..12], &pseudo[..10], &p[8..], &p[6..8]]) == 0;
     let r = UdpHeader::from_bytes_ipv4(p.iter().cloned(), M, Ipv4Address::new(src), Ipv4Address::new(dst));
     assert!(r.is_ok() == verifies);
     kani::cover!(verifies);
